@@ -1,6 +1,6 @@
 (* Props/C05.v -- property C05: a downlink is accepted iff it is authentic and fresh. *)
-From Coq Require Import NArith ZArith List Bool.
-From LoraV Require Import Base.Bytes Model.Frame Spec.L2Frame Model.Region Model.Mac Proofs.FcntProofs Proofs.SessionProofs.
+From Coq Require Import NArith ZArith List Bool Lia.
+From LoraV Require Import Base.Bytes Model.Frame Spec.L2Frame Model.Region Model.Mac Proofs.FcntProofs Proofs.SessionProofs Model.NbDev Proofs.AsyncProofs Proofs.DownHistory.
 Import ListNotations.
 Local Open Scope N_scope.
 
@@ -42,4 +42,20 @@ Section C05.
     ss_nwkskey (ro_session o) = ss_nwkskey s /\ ss_appskey (ro_session o) = ss_appskey s /\
     ss_devaddr (ro_session o) = ss_devaddr s.
   Proof. exact (accept_effects enc mac_fn). Qed.
+
+  (* Along whole histories of the nb_device front-end: within a session (joined with the keys of s, last accepted downlink counter a), over
+     EVERY sequence of send requests, radio events with any answer and any received byte string, and timeouts, with a fault at any radio
+     call, the counters the device reports as DownlinkReceived are strictly increasing, all above a: no frame is ever acted on twice and
+     counters never move backwards, across 16-bit roll-overs and whatever is interleaved *)
+  Theorem C05_nb_downlinks_strictly_increase : forall s evs a st m e,
+    J s a m ->
+    Forall (fun x => (match fst x with NJoin _ _ => False | _ => True end) /\
+                     (match snd x with RaRxDone p => bytes_ok p = true | _ => True end)) evs ->
+    inc_from a (downs (nb_resps enc mac_fn st m e evs)).
+  Proof. exact (nb_downlinks_strictly_increase enc mac_fn). Qed.
 End C05.
+
+(* non-vacuity / reading aid: what inc_from says *)
+Example C05_inc_from_example : inc_from (Some 5) [7; 65536; 65537] /\ ~ inc_from (Some 5) [7; 7].
+Proof. split; [cbn; repeat split; lia|cbn; intros [_ [H _]]; lia]. Qed.
+
